@@ -83,11 +83,12 @@ def first_money(cell):
 
 class Event:
     __slots__ = ("idx", "sec", "td", "sd", "action", "af", "glob", "shares", "aps", "comm",
-                 "fx", "cfx", "sfl", "sfl_forced", "factor", "int_only", "row")
+                 "fx", "cfx", "sfl", "sfl_forced", "factor", "int_only", "row", "threshold_tie")
 
     def __init__(self, idx, r):
         self.idx = idx
         self.row = r
+        self.threshold_tie = False
         self.sec = r["sec"]
         self.td = D(r["td"])
         self.sd = D(r["sd"])
@@ -315,7 +316,12 @@ def apply_event(events, i, led, tool_sfl):
             comp = gross * x["n"] / e.shares if x["superficial"] else Fraction(0)
             info["computed"] = comp
             if e.sfl is not None:
-                if not e.sfl_forced and abs(comp - e.sfl) > SFL_TOL:
+                dist = abs(comp - e.sfl)
+                if not e.sfl_forced and abs(dist - SFL_TOL) <= TIE_EPS:
+                    # the declared value sits on the 0.001 threshold itself: which side it falls on is decided by
+                    # decimal rounding noise in the computed value; either outcome is consistent with the statement
+                    e.threshold_tie = True
+                elif not e.sfl_forced and dist > SFL_TOL:
                     return "sfl_mismatch"
                 denied = e.sfl
             else:
@@ -368,6 +374,7 @@ def apply_event(events, i, led, tool_sfl):
 
 
 e_info = {}
+TIE_EPS = Fraction(1, 10 ** 9)
 
 
 def analyze_security(sec, events, init, table):
@@ -384,6 +391,8 @@ def analyze_security(sec, events, init, table):
     ri, reason = classify(events, init)
     if ri is not None:
         A.ref_reject = (events[ri], reason, ri)
+    if any(getattr(x, "threshold_tie", False) for x in events):
+        A.features.add("sfl_threshold_tie")
 
     led = Ledger(init)
     opening_cost = Fraction(init[1]) if init else Fraction(0)
